@@ -281,7 +281,8 @@ SPECS["C15"] = {
     "real": ["esutil.sfile/recfile/io writers", "esutil.htm Matcher", "esutil.wcsutil.WCS", "esutil.random samplers",
              "esutil.integrate (tabulated data)"],
     "stub": ["random source of the samplers (SimRNG)"],
-    "expect_reach": [],
+    "expect_reach": ["guarded_plain", "guarded_swapped", "guarded_strided", "guarded_strided_swapped", "guarded_offset",
+                     "guarded_f4", "guarded_int"],
     "assumptions": ["RESTRICTED SCOPE: only call sites reached inside simulated workloads are watched; the pure families "
                     "listed in the statement (field operations, byte-order helpers, match/unique, histograms, statistics, "
                     "coordinates, cosmology, HTM lookup/pair counting) have no history, schedule or fault for a simulator to "
